@@ -263,9 +263,13 @@ def decode_number(data_raw: int, bit_offset: int, bit_length: int, signed: bool,
     # adjust resolution
     number_int *= resolution
 
-    if number_int < min_value:
+    # The range limits are decimal numbers; the scaled value carries binary rounding (65532 * 0.1 is
+    # 6553.200000000001), so compare with half a resolution step of slack. A raw value that is really
+    # out of range is at least one full step away and is still rejected.
+    tolerance = abs(resolution) / 2
+    if number_int < min_value - tolerance:
         raise ValueError("Value below minimum allowed")
-    if number_int > max_value:
+    if number_int > max_value + tolerance:
         raise ValueError("Value above maximum allowed")
 
     return number_int
